@@ -4,7 +4,7 @@
 
 NI size_t canon_image(unsigned char *out, size_t cap) {
     size_t o = 0;
-    int nb = ledger_nblocks;
+    int nb = ledger_snapshot();
     for(int i = 0; i < nb; i++) {
         size_t n = ledger_blocks[i].n;
         if(o + n + 16 > cap) { fprintf(stderr, "canon image overflow\n"); abort(); }
